@@ -1,6 +1,7 @@
 package rules
 
 import (
+	"go/token"
 	"strings"
 
 	"dcverif/internal/fsmx"
@@ -31,6 +32,10 @@ func C07(c *Ctx) {
 	r.Rule("C07/R5", "every proposal starts from a fresh quorum: nothing recorded for the previous batch (status, partial signatures) survives into the next", 2)
 	r.Rule("C07/R6", "a received reconstruction is stored independently of the round's current state", 3)
 	c07StoreIndependent(c)
+	r.Rule("C07/R8", "every verified board message that is not a signature announcement reaches the round's machine: processMessage has no other early success return in front of Do(message.Event)", 1)
+	c07NoSilentSkip(c)
+	r.Rule("C07/R7", "a finished batch stays finished: the blob holding all rounds is rewritten under one fixed lock (a save of another round must not restore this round's earlier dump)", 1)
+	c14RMWAs(c, c14Roots(c), "C07/R7", "getStateKey()")
 	ms := c.Machines("C07/A1")
 	fn := c.Fn("C07/R1", pkgNode, "BaseNodeService", "processMessage")
 	if fn == nil || len(ms) != 3 {
@@ -324,6 +329,19 @@ func derivesFrom(v ssa.Value, pred func(ssa.Value) bool, depth int, seen map[ssa
 			if st, ok := ref.(*ssa.Store); ok && st.Addr == ssa.Value(al) && derivesFrom(st.Val, pred, depth+1, seen) {
 				return true
 			}
+			// elements of a local array/struct (the backing array of variadic arguments, a literal)
+			if ea, ok := ref.(ssa.Value); ok {
+				switch ea.(type) {
+				case *ssa.IndexAddr, *ssa.FieldAddr:
+					if ea.Referrers() != nil {
+						for _, r2 := range *ea.Referrers() {
+							if st, ok := r2.(*ssa.Store); ok && st.Addr == ea && derivesFrom(st.Val, pred, depth+1, seen) {
+								return true
+							}
+						}
+					}
+				}
+			}
 		}
 		return false
 	}
@@ -337,4 +355,76 @@ func derivesFrom(v ssa.Value, pred func(ssa.Value) bool, depth int, seen map[ssa
 		}
 	}
 	return false
+}
+
+
+// c07NoSilentSkip (R8): a proposal (or answer) that processMessage drops with a success return is lost for this node —
+// the offset moves on, the machine never sees it. Apart from the two announcement events that are handled without the
+// machine, no `return nil, nil` may be reachable without passing Do(message.Event).
+func c07NoSilentSkip(c *Ctx) {
+	r := c.R
+	fn := c.Fn("C07/R8", pkgNode, "BaseNodeService", "processMessage")
+	if fn == nil {
+		return
+	}
+	var mainDo ssa.Instruction
+	for _, call := range ssax.CallsTo(fn, load.Module+"/fsm/state_machines.(FSMInstance).Do") {
+		if strings.HasSuffix(ssax.Path(call.Common().Args[1]), "message.Event") {
+			mainDo = call.(ssa.Instruction)
+		}
+	}
+	if mainDo == nil {
+		r.Unknown("C07/R8", "node.processMessage:silent-skip", "Do(message.Event) is found", c.Pos(fn.Pos()), "main Do call not recognised")
+		return
+	}
+	var annEdges []ssax.Edge
+	for _, cd := range ssax.Conds(fn) {
+		if cd.Op != token.EQL && cd.Op != token.NEQ {
+			continue
+		}
+		for _, pr := range [][2]ssa.Value{{cd.X, cd.Y}, {cd.Y, cd.X}} {
+			if pr[0] == nil || pr[1] == nil || !strings.HasSuffix(ssax.Path(pr[0]), "message.Event") {
+				continue
+			}
+			if k, ok := ssax.ConstString(pr[1]); ok && (k == "signature_reconstructed" || k == "signature_reconstruction_failed") {
+				if e, ok := cd.EdgeWhere(token.EQL); ok {
+					annEdges = append(annEdges, e)
+				}
+			}
+		}
+	}
+	// (a round found in a state ending in _error / _timeout is aborted or being restarted: the pre-handlers may drop
+	// the message; that is the node's documented reaction to a dead round, not a skipped message of a live one)
+	for _, cd := range ssax.Conds(fn) {
+		call, isCall := ssax.Resolve(cd.X).(*ssa.Call)
+		if cd.Op != token.ILLEGAL || !isCall || ssax.FuncID(ssax.CalleeObj(call)) != "strings.HasSuffix" {
+			continue
+		}
+		if sfx, ok := ssax.ConstString(call.Common().Args[1]); ok && (sfx == "_error" || sfx == "_timeout") {
+			if e, ok := cd.BoolEdge(true); ok {
+				annEdges = append(annEdges, e)
+			}
+		}
+	}
+	nAnn := 0
+	for range annEdges {
+		nAnn++
+	}
+	bad := ""
+	for _, ret := range ssax.Returns(fn) {
+		if len(ret.Results) != 2 {
+			continue
+		}
+		for _, lf := range ssax.Leaves(ret.Results[1], ret) {
+			if !ssax.IsNilConst(lf.V) {
+				continue
+			}
+			// a success return that does not pass the machine and is not behind one of the announcement cases
+			if ssax.ReachableAvoiding(fn, lf.At, annEdges, []ssa.Instruction{mainDo}) {
+				bad = c.PosOf(ret)
+			}
+		}
+	}
+	r.Check(bad == "" && nAnn >= 2, "C07/R8", "node.processMessage:no-silent-skip", "apart from the two announcement events, success is returned only after the machine was given the event", c.Pos(fn.Pos()),
+		sprintf("the success return at %s is reachable without Do(message.Event) and outside the announcement cases (%d announcement / dead-round cases recognised): a message skipped this way is never applied on this node", bad, len(annEdges)))
 }
